@@ -78,33 +78,140 @@ Proof.
     injection H as <- <- <-. cbn [run]. rewrite E1. reflexivity.
 Qed.
 
-(** one validated script step: the model moves from one quiescent state to the
-    next along LTS labels, and the observed "blocked in select" set is the set of
-    calls the model has parked there, none of which (nor any other call) can move *)
+Lemma nats_eqb_eq : forall a b, nats_eqb a b = true -> a = b.
+Proof.
+  induction a as [|x a IH]; intros [|y b] H; cbn in H; try discriminate; [reflexivity|].
+  apply andb_true_iff in H as [H1 H2]. apply Nat.eqb_eq in H1. subst. f_equal. apply IH. exact H2.
+Qed.
+
+(** what an accepted comparison with an observation contains *)
+Lemma obs_match_sound : forall keys s s2 vb1 cb o r,
+  obs_match keys s s2 vb1 cb o = Some r ->
+  parked_list (thr s2) 0 = o_parked o /\ dblclose s2 = false.
+Proof.
+  intros keys s s2 vb1 cb o r H. unfold obs_match in H.
+  match type of H with (if ?c then _ else _) = _ => destruct c eqn:Ec; [|discriminate] end.
+  repeat (apply andb_true_iff in Ec as [Ec ?]). split.
+  - apply nats_eqb_eq. assumption.
+  - apply negb_true_iff. assumption.
+Qed.
+
+Lemma all_enabled_nil : forall s, all_enabled s = [] -> forall t, enabled_of s t = [].
+Proof.
+  intros s H t. destruct (Nat.lt_ge_cases t (length (thr s))) as [Hlt|Hge].
+  - unfold all_enabled in H.
+    destruct (enabled_of s t) as [|l ls] eqn:E; [reflexivity|].
+    assert (Hin : In l (flat_map (enabled_of s) (seq 0 (length (thr s))))).
+    { apply in_flat_map. exists t. split; [apply in_seq; lia|]. rewrite E. left. reflexivity. }
+    rewrite H in Hin. destruct Hin.
+  - apply enabled_of_out_of_range. exact Hge.
+Qed.
+
+Lemma first_some_some : forall {A B} (f : A -> option B) l y,
+  first_some f l = Some y -> exists x, In x l /\ f x = Some y.
+Proof.
+  intros A B f. induction l as [|x tl IH]; intros y H; cbn [first_some] in H; [discriminate|].
+  destruct (f x) as [y0|] eqn:E.
+  - injection H as <-. exists x. split; [left; reflexivity|exact E].
+  - destruct (IH _ H) as (x0 & Hin & Hf). exists x0. split; [right; exact Hin|exact Hf].
+Qed.
+
+(** the search over the interleavings of a burst only ever follows the LTS: what it
+    returns is a run of the model from the state before the burst to a state in which
+    no call can move and which the acceptance test accepted *)
+Theorem search_sound : forall {X} fuel mac ordered alive (accept : st -> bij -> option X) s vb pend acc s' x ls,
+  search fuel mac ordered alive accept s vb pend acc = Some (s', x, ls) ->
+  exists ls' vb', ls = rev acc ++ ls' /\ run s ls' = Some s' /\
+                  (forall t, enabled_of s' t = []) /\ accept s' vb' = Some x.
+Proof.
+  intros X. induction fuel as [|f IH]; intros mac ordered alive accept s vb pend acc s' x ls H;
+    cbn [search] in H; [discriminate|].
+  destruct (alive s); [|discriminate].
+  assert (Hmove :
+    match first_some (fun p =>
+             match apply_sop s vb (fst p) with
+             | Some (s1, vb1, ls1) => search f mac ordered alive accept s1 vb1 (snd p) (rev_append ls1 acc)
+             | None => None
+             end) (picks ordered pend) with
+    | Some r => Some r
+    | None =>
+        first_some (fun l =>
+             let m := mac l in
+             match run s m with
+             | Some s1 => search f mac ordered alive accept s1 vb pend (rev_append m acc)
+             | None => None
+             end) (all_enabled s)
+    end = Some (s', x, ls) ->
+    exists ls' vb', ls = rev acc ++ ls' /\ run s ls' = Some s' /\
+                    (forall t, enabled_of s' t = []) /\ accept s' vb' = Some x).
+  { clear H. intros H.
+    match type of H with match ?a with _ => _ end = _ => destruct a as [r|] eqn:E1 end.
+    - injection H as ->. destruct (first_some_some _ _ _ E1) as (p & _ & Hp).
+      destruct (apply_sop s vb (fst p)) as [[[s1 vb1] ls1]|] eqn:Ea; [|discriminate].
+      destruct (IH _ _ _ _ _ _ _ _ _ _ _ Hp) as (ls' & vb' & -> & Hrun & Hq & Hacc).
+      exists (ls1 ++ ls'), vb'. rewrite rev_append_rev, rev_app_distr, rev_involutive, <- app_assoc.
+      split; [reflexivity|]. split; [|split; assumption].
+      rewrite run_app, (apply_sop_run _ _ _ _ _ _ Ea). exact Hrun.
+    - destruct (first_some_some _ _ _ H) as (l & _ & Hl). cbv zeta in Hl.
+      destruct (run s (mac l)) as [s1|] eqn:Er; [|discriminate].
+      destruct (IH _ _ _ _ _ _ _ _ _ _ _ Hl) as (ls' & vb' & -> & Hrun & Hq & Hacc).
+      exists (mac l ++ ls'), vb'. rewrite rev_append_rev, rev_app_distr, rev_involutive, <- app_assoc.
+      split; [reflexivity|]. split; [|split; assumption].
+      rewrite run_app, Er. exact Hrun. }
+  destruct pend as [|a pend'].
+  - destruct (all_enabled s) as [|l en] eqn:Een.
+    + destruct (accept s vb) as [x0|] eqn:Ea; [|discriminate]. injection H as <- <- <-.
+      exists [], vb. rewrite app_nil_r. repeat split; auto. apply all_enabled_nil. exact Een.
+    + apply Hmove. exact H.
+  - apply Hmove. destruct (all_enabled s); exact H.
+Qed.
+
+Lemma explain_burst_gen_some : forall {X} f1 f2 ordered alive (accept : st -> bij -> option X) s vb acts r,
+  explain_burst_gen f1 f2 ordered alive accept s vb acts = Some r ->
+  exists fuel mac, search fuel mac ordered alive accept s vb acts [] = Some r.
+Proof.
+  intros X f1 f2 ordered alive accept s vb acts r H. unfold explain_burst_gen in H.
+  destruct (search f1 macro_of ordered alive accept s vb acts []) as [r0|] eqn:Ef.
+  - injection H as ->. exists f1, macro_of. exact Ef.
+  - exists f2, single. exact H.
+Qed.
+
+(** one validated script step (single action or burst): the model moves from one
+    quiescent state to the next along LTS labels, and the observed "blocked in select"
+    set is the set of calls the model has parked there, none of which (nor any other
+    call) can move *)
+Lemma check_step_gen_sound : forall f1 f2 keys v x v',
+  check_step_gen f1 f2 keys v x = Some v' ->
+  exists ls, v_trace v' = v_trace v ++ ls /\ run (v_st v) ls = Some (v_st v') /\
+             (forall t, enabled_of (v_st v') t = []) /\
+             parked_list (thr (v_st v')) 0 = o_parked (s_obs x) /\
+             dblclose (v_st v') = false.
+Proof.
+  intros f1 f2 keys v x v' H. unfold check_step_gen in H. destruct x as [op o|ordered acts o]; cbn [s_obs].
+  - destruct (apply_sop (v_st v) (v_vb v) op) as [[[s1 vb1] ls1]|] eqn:E1; [|discriminate].
+    destruct (saturate sat_fuel s1 []) as [[s2 ls2]|] eqn:E2; [|discriminate].
+    destruct (obs_match keys (v_st v) s2 vb1 (v_cb v) o) as [[vb' cb']|] eqn:E3; [|discriminate].
+    injection H as <-. cbn [v_trace v_st].
+    destruct (saturate_sound _ _ _ _ _ E2) as (ls' & -> & Hrun & _ & Hq). cbn [rev app] in *.
+    exists (ls1 ++ ls'). split; [reflexivity|]. split.
+    + rewrite run_app. rewrite (apply_sop_run _ _ _ _ _ _ E1). exact Hrun.
+    + split; [exact Hq|]. eapply obs_match_sound. exact E3.
+  - match type of H with match ?a with _ => _ end = _ => destruct a as [[[s2 [vb' cb']] ls]|] eqn:E1; [|discriminate] end.
+    injection H as <-. cbn [v_trace v_st].
+    apply explain_burst_gen_some in E1 as E2.
+    destruct E2 as (fuel & mac & E2).
+    destruct (search_sound _ _ _ _ _ _ _ _ _ _ _ _ E2) as (ls' & vb1 & -> & Hrun & Hq & Hacc).
+    cbn [rev app] in *. exists ls'. split; [reflexivity|]. split; [exact Hrun|].
+    split; [exact Hq|]. eapply obs_match_sound. exact Hacc.
+Qed.
+
 Theorem check_step_sound : forall keys v x v',
   check_step keys v x = Some v' ->
   exists ls, v_trace v' = v_trace v ++ ls /\ run (v_st v) ls = Some (v_st v') /\
              (forall t, enabled_of (v_st v') t = []) /\
              parked_list (thr (v_st v')) 0 = o_parked (s_obs x) /\
              dblclose (v_st v') = false.
-Proof.
-  intros keys v x v' H. unfold check_step in H.
-  destruct (apply_sop (v_st v) (v_vb v) (s_op x)) as [[[s1 vb1] ls1]|] eqn:E1; [|discriminate].
-  destruct (saturate sat_fuel s1 []) as [[s2 ls2]|] eqn:E2; [|discriminate].
-  match type of H with (if ?c then _ else _) = _ => destruct c eqn:Ec; [|discriminate] end.
-  destruct (tbl_match s2 (v_cb v) keys (o_tbl (s_obs x))) as [cb'|]; [|discriminate].
-  destruct (store_match s2 vb1 keys (o_store (s_obs x))) as [vb'|]; [|discriminate].
-  injection H as <-. cbn [v_trace v_st].
-  destruct (saturate_sound _ _ _ _ _ E2) as (ls' & -> & Hrun & _ & Hq). cbn [rev app] in *.
-  exists (ls1 ++ ls'). split; [reflexivity|]. split.
-  - rewrite run_app. rewrite (apply_sop_run _ _ _ _ _ _ E1). exact Hrun.
-  - split; [exact Hq|].
-    repeat (apply andb_true_iff in Ec as [Ec ?]). split.
-    + clear - H2. revert H2. generalize (parked_list (thr s2) 0) (o_parked (s_obs x)).
-      induction l as [|a l IH]; intros [|b l0] H; cbn in H; try discriminate; [reflexivity|].
-      apply andb_true_iff in H as [H1 H2]. apply Nat.eqb_eq in H1. subst. f_equal. apply IH. exact H2.
-    + apply negb_true_iff. assumption.
-Qed.
+Proof. intros keys v x v'. unfold check_step. apply check_step_gen_sound. Qed.
 
 Lemma check_steps_sound : forall keys l v v',
   check_steps keys v l = Some v' ->
